@@ -92,6 +92,7 @@ type cnode struct {
 var nodeSeq int
 
 const cAccts = 5
+const genesisCoins = 100000000
 
 func newCNode(run *vh.Run) *cnode {
 	nodeSeq++
@@ -118,7 +119,9 @@ func newCNode(run *vh.Run) *cnode {
 		n.keys = append(n.keys, k)
 		a := crypto.GenerateAddress(k.PubKey().ToECDSA())
 		n.addrs = append(n.addrs, a)
-		bal[types.EncodeAddress(a)] = coins(1000000).String()
+		// (chain.initChainParams sets types.MaxAER to the total genesis balance of a private chain: 5 x 10^8 aergo keeps it
+		// at the default 500,000,000 aergo, the bound of the parameter votes, for the whole process)
+		bal[types.EncodeAddress(a)] = coins(genesisCoins).String()
 	}
 	// two more genesis producers that never produce: the last irreversible block stays at genesis, so every
 	// reorganisation of the scenarios is permitted by the real Status.NeedReorganization
